@@ -763,6 +763,8 @@ def rule_zero_defers(ctx):
                 for q in preds:
                     if q["exp"]:
                         continue
+                    if q["offs"]:
+                        continue        # a comparison the reader could not bring to the form strong(S) == x
                     if q["rhs"] == amount or const_of(q["rhs"]) == const_of(amount) is not None:
                         if q["rel"] == "==":
                             hit = True
@@ -1047,6 +1049,31 @@ def rule_destruct_order(ctx):
         if not (idx["pop"] or idx["drop"] or idx["dealloc"]):
             if idx["decw"]:
                 r.violate(f, "path", "decrement_weak without destruction", p.events[idx["decw"][0]].loc())
+            elif p.exit[0] == "return":
+                # a path that does not destruct its node must dispose of it otherwise: hand the attempt on (the deferral at
+                # the depth cap or under the stamp test) or, revived, give the token back - never just return: the count is
+                # zero and nobody else will come for it
+                me = ("arg", 1, p.body.local_name(1))
+                hs = [h for h in handoffs(ctx, p, -1) if h[1] == me]
+                back = [e for e in p.events if e.kind == "call" and e.target == DEC_STRONG and ptr_root(e.args[0]) == me]
+                # (a null pointer is no node)
+                def _says_null(q):
+                    if q.kind != "cond" or not _is_null_test(q):
+                        return False
+                    isdisc = isinstance(q.term, tuple) and q.term[0] == "disc"
+                    if isdisc:      # Option<&T> of as_ref/as_mut: None (0), or "not Some"
+                        return q.value == 0 or (isinstance(q.value, tuple) and q.value[0] == "not" and 1 in q.value[1])
+                    return q.value == 1
+                isnull = any(_says_null(q) for q in p.events)
+                if isnull:
+                    continue
+                okp = bool(hs) or bool(back)
+                r.instance("a path that does not destruct its node hands it on (%s)" % (
+                    [h[0].split("::")[-1] for h in hs] or ("token given back" if back else "nothing")), okp)
+                if not okp:
+                    r.violate(f, "silent-return", "the cascade returns without destructing its node, deferring its destruction "
+                              "or giving a token back: the node's count is zero and no attempt is pending - it is never "
+                              "destructed (chains beyond the depth cap leak their tail)", p.body.loc(p.blocks[-1][1]))
             continue
         if p.exit[0] == "diverge":
             continue
